@@ -215,6 +215,10 @@ def run(pid, tier):
                         3 if tier == "quick" else (5 if pid == "C02" else 4), 3 if tier == "quick" or pid != "C02" else 4, "D" if pid == "C02" else "H,B,HB,BB,D")
     chk.notes["result_histogram"] = hist
     chk.assumptions += ["Display impls are well-behaved (stop at the first fmt error)", "sinks follow io::Write's contract and do not override write_all"]
+    # the model as the theorems see it (vm_compute inside Coq) against the model as the correspondence runs it (extracted OCaml)
+    xs = [(c[0], [p.encode() for p in c[1]], list(c[2])) for c in chk.rng.sample([c for c in cases if c[0] in ("D", "H", "B") and len(c[2]) <= 12 and sum(len(p) for p in c[1]) <= 40], 40 if tier == "quick" else 300)]
+    nx, xbad = io_crosscheck(xs)
+    chk.notes["extraction_crosscheck"] = "%d cases evaluated by vm_compute inside Coq and by the extracted driver: %s" % (nx, "equal" if not xbad else xbad[0])
     if pid == "C02":
         template_level(chk, oracle_fail, disagree, tier)
     chk.notes["disagreements_model_vs_impl"] = len(disagree)
@@ -228,6 +232,9 @@ def run(pid, tier):
         c, a, m = disagree[0]
         chk.violation("correspondence Model/Io.v <-> src/templates/utils.rs broken (no input violating the property found among %d cases)" % len(cases),
                       dict(stage="io", case=line_of(c), impl=a, model=m, broken="correspondence io", theorems=[t["name"] for t in proof["theorems"]]), failing_input_found=False)
+    if xbad and not chk.violations:
+        chk.violation("the extracted model no longer computes what the Gallina model computes (%s)" % xbad[0],
+                      dict(stage="extraction", broken="Extract.v / ocaml/driver.ml vs vm_compute", mismatches=xbad[:5]), failing_input_found=False)
     if not proof["ok"]:
         if not chk.violations:
             chk.violation(proof_violation(chk, proof), dict(stage="proof", broken=proof.get("broken_at"), problems=proof["problems"], log=proof["log"][-1500:]), failing_input_found=False)
